@@ -1,0 +1,13 @@
+//go:build verif && amd64 && go1.17 && !go1.27
+// +build verif,amd64,go1.17,!go1.27
+
+// Verification hooks (build tag `verif` only): read-only views of unexported state
+// for the correspondence checks under /verif. Not part of the public API.
+
+package sonic
+
+// VerifFrozenOptions returns the encoder and decoder option words a Config freezes to.
+func VerifFrozenOptions(cfg Config) (enc uint64, dec uint64) {
+	f := cfg.Froze().(*frozenConfig)
+	return uint64(f.encoderOpts), uint64(f.decoderOpts)
+}
